@@ -61,8 +61,56 @@ def _history():
                                'what': st.sampled_from(['deadline', 'validator'])}))
     cancel = st.fixed_dictionaries({'op': st.just('cancel'), 'i': st.integers(0, 7)})
     op = st.one_of(express, express, data, data, data, nack, adv, adv, adv, cancel)
-    return st.tuples(st.lists(express, min_size=1, max_size=4), st.lists(op, min_size=2, max_size=20),
+    free = st.tuples(st.lists(express, min_size=1, max_size=4), st.lists(op, min_size=2, max_size=20),
                      st.sampled_from([[], [], [], [{'op': 'shutdown'}]])).map(lambda t: t[0] + t[1] + t[2])
+    return st.one_of(free, free, _templates(express, op))
+
+
+def _templates(express, op):
+    """Multi-step skeletons that random histories reach too rarely, with drawn parameters and random ops around them:
+    T1  slow validator outlives the lifetime, the same name is expressed again meanwhile, Data arrives again
+    T2  partial satisfaction (mixed CanBePrefix / digest on one name), then a second Data
+    T3  cancel, re-express on the same name, late packet"""
+    nm = st.lists(st.sampled_from(ALPHA[:2]), min_size=1, max_size=2)
+
+    @st.composite
+    def t(draw):
+        which = draw(st.sampled_from(['T1', 'T1', 'T2', 'T3']))
+        n = draw(nm)
+        life = draw(st.sampled_from([5, 50]))
+        mode = draw(st.sampled_from(['await', 'task']))
+        pre = draw(st.lists(op, max_size=3))
+        post = draw(st.lists(op, max_size=5))
+        if which == 'T1':
+            core = [{'op': 'express', 'name': n, 'cbp': draw(st.booleans()), 'digest': 'none', 'life': life,
+                     'vlat': draw(st.sampled_from(['life', 'life+20'])), 'verdict': True},
+                    {'op': 'adv', 'ms': draw(st.sampled_from([0, 1, 2]))},
+                    {'op': 'data', 'of': 99, 'ext': [], 'mode': mode},
+                    {'op': 'adv', 'ms': draw(st.sampled_from([0, 1, 2]))},
+                    {'op': 'express', 'name': n, 'cbp': draw(st.booleans()), 'digest': 'none',
+                     'life': draw(st.sampled_from([50, 4000])), 'vlat': '0', 'verdict': True},
+                    {'op': 'adv_to', 'i': 99, 'delta': draw(st.sampled_from([0, 1])), 'what': 'deadline'},
+                    {'op': 'adv', 'ms': draw(st.sampled_from([0, 1, 3]))},
+                    {'op': 'data', 'of': 99, 'ext': [], 'mode': mode}]
+        elif which == 'T2':
+            core = [{'op': 'express', 'name': n, 'cbp': True, 'digest': 'none', 'life': 4000, 'vlat': '0', 'verdict': True},
+                    {'op': 'express', 'name': n, 'cbp': False, 'digest': draw(st.sampled_from(['none', 'wrong', 'right'])),
+                     'life': 4000, 'vlat': '0', 'verdict': True},
+                    {'op': 'data', 'of': 99, 'ext': draw(st.sampled_from([['a'], ['b'], []])), 'mode': mode},
+                    {'op': 'adv', 'ms': 1},
+                    {'op': 'data', 'of': 99, 'ext': draw(st.sampled_from([[], ['a']])), 'mode': mode},
+                    {'op': 'data', 'of': 99, 'ext': [], 'mode': mode}]
+        else:
+            core = [{'op': 'express', 'name': n, 'cbp': draw(st.booleans()), 'digest': 'none', 'life': 4000, 'vlat': '0', 'verdict': True},
+                    {'op': 'cancel', 'i': 99},
+                    {'op': 'express', 'name': n, 'cbp': False, 'digest': 'none', 'life': 4000, 'vlat': '0', 'verdict': True},
+                    draw(st.sampled_from([{'op': 'nack', 'i': 99, 'reason': 50, 'mode': mode},
+                                          {'op': 'data', 'of': 99, 'ext': [], 'mode': mode}]))]
+        # indices 99 mean "the most recent Interest of this skeleton": resolved at run time modulo the live count,
+        # so place the skeleton first and keep `pre` free of expresses that would shift it
+        pre = [o for o in pre if o['op'] not in ('express',)]
+        return pre + core + post
+    return t()
 
 
 def _case(frontend):
@@ -132,7 +180,7 @@ def _run(sim, fe, ops, r):
             if 'of' in op:
                 if not ents:
                     continue
-                lst = ents[op['of'] % len(ents)]['name'] + op['ext']
+                lst = ents[0 if op['of'] == 99 else op['of'] % len(ents)]['name'] + op['ext']
             else:
                 lst = op['name']
             op = dict(op, name=lst)
@@ -145,7 +193,7 @@ def _run(sim, fe, ops, r):
         elif k == 'nack':
             if not ents or not alive:
                 continue
-            e = ents[op['i'] % len(ents)]
+            e = ents[0 if op['i'] == 99 else op['i'] % len(ents)]
             if e['h'].wire is None:
                 continue
             events.append((sim.vl.now_ms(), 'nack', (e['comps'], op['reason'])))
@@ -157,7 +205,7 @@ def _run(sim, fe, ops, r):
         elif k == 'adv_to':
             if not ents:
                 continue
-            e = ents[op['i'] % len(ents)]
+            e = ents[0 if op['i'] == 99 else op['i'] % len(ents)]
             target = e['d']
             if op['what'] == 'validator' and e.get('matched_at') is not None:
                 target = e['matched_at'] + int(vlat_seconds(e['vlat'], e['life']) * 1000)
@@ -169,7 +217,7 @@ def _run(sim, fe, ops, r):
         elif k == 'cancel':
             if not ents:
                 continue
-            e = ents[op['i'] % len(ents)]
+            e = ents[0 if op['i'] == 99 else op['i'] % len(ents)]
             if e['h'].done_count == 0 and 'cancel_at' not in e:
                 e['cancel_at'] = sim.vl.now_ms()
                 events.append((sim.vl.now_ms(), 'cancel', ents.index(e)))
@@ -205,7 +253,7 @@ def _run(sim, fe, ops, r):
                   f'interest {i} name={e["name"]} cbp={e["cbp"]} digest={e["digest"]} life={e["life"]} vlat={e["vlat"]} '
                   f't0={e["t0"]} done={h.done_ms} site={site} why={why} events={[(t - ents[0]["t0"], k) for t, k, _ in events]}')
         if got == 'data':
-            if h.outcome[1] != _name(_matched_name(e, events)):
+            if h.outcome[1] != _name(_matched_name(e, events, i)):
                 r.bad(f'C03/{fe}/wrong-data', f'interest {i} got Data {h.outcome[1]}')
     if sim.receive_errors:
         r.bad(f'C03/{fe}/receive-raised/{sim.receive_errors[0].split(":")[0]}', '; '.join(sim.receive_errors[:3]))
@@ -283,9 +331,13 @@ def _outcome_label(h):
     return f'exc:{h.outcome[1]}'
 
 
-def _matched_name(e, events):
+def _matched_name(e, events, idx):
+    started = False
     for t, k, p in events:
-        if k == 'data' and e['t0'] <= t <= e['d'] + 1 and _matches(e, p[0], p[1]):
+        if k == 'express' and p == idx:
+            started = True
+            continue
+        if started and k == 'data' and t <= e['d'] + 1 and _matches(e, p[0], p[1]):
             return p[0]
     return e['name']
 
@@ -333,7 +385,7 @@ def _allowed(fe, i, e, events):
                     out.add('exc:InterestTimeout')
             # caller cancel / shutdown while the validator is still running
             for t2, k2, p2 in events:
-                if t <= t2 <= done + 1 and ((k2 == 'cancel' and p2 == i) or k2 == 'shutdown') and t2 <= d + 1:
+                if t <= t2 <= done + 1 and ((k2 == 'cancel' and p2 == i) or k2 == 'shutdown') and (t2 <= d + 1 or fe == 'legacy'):
                     out |= CANCEL
         elif hit == 'nack':
             out.add(f'exc:InterestNack:{p[1]}')
